@@ -1,7 +1,7 @@
 #!/usr/bin/env python3
 """Cross-detection matrix: which property monitors fire on which seeded change.
 
-  matrix.py run [--workers K] [--threads N] [--base B] [--dir DIR] [NAME ...]
+  matrix.py run [--workers K] [--threads N] [--base B] [--dir DIR] [--owner-only] [NAME ...]
                 (--dir selftest/benign: the behaviour-preserving changes, on which nothing may fire)   (all seeded changes when none named)
   matrix.py table
   matrix.py tier NAME PROP dbg|rel|asan [scale]     (ad hoc: one change, one property, one build variant; prints, records nothing)
@@ -74,7 +74,7 @@ def teardown_worker(k):
     sh(["git", "-C", REPO, "worktree", "prune"])
 
 
-def run_one(name, root, wt, hz, threads, known):
+def run_one(name, root, wt, hz, threads, known, props=None):
     d = os.path.join(SEEDED, name)
     sh(["git", "checkout", "--", "."], cwd=wt)
     code, out = sh(["git", "apply", os.path.join(d, "patch.diff")], cwd=wt)
@@ -85,7 +85,7 @@ def run_one(name, root, wt, hz, threads, known):
         return {"error": "build failed: " + out[-600:]}
     binp = os.path.join(hz, "target", "debug", "rtcpmon")
     res = {}
-    for p in PROPS:
+    for p in (props or PROPS):
         t0 = time.time()
         pp = os.path.join(root, "partial.json")
         try:
@@ -148,7 +148,7 @@ def run_tier(name, prop, variant, k=9, threads=8, scale=None, seeded_dir=None):
         teardown_worker(k)
 
 
-def run(names, workers, threads, base=0):
+def run(names, workers, threads, base=0, owner_only=False):
     known = open_known()
     names = list(names)
     lock = threading.Lock()
@@ -163,8 +163,15 @@ def run(names, workers, threads, base=0):
                         return
                     name = names.pop(0)
                 t0 = time.time()
-                res = run_one(name, root, wt, hz, threads, known)
-                json.dump({"verif_commit": verif_commit, "tier": "native debug-assertion build of each quick workload", "results": res}, open(os.path.join(SEEDED, name, "matrix.json"), "w"), indent=1)
+                res = run_one(name, root, wt, hz, threads, known, [name.split("-")[0]] if owner_only else None)
+                mj = os.path.join(SEEDED, name, "matrix.json")
+                if owner_only and "error" not in res and os.path.exists(mj):
+                    # owner-only re-run: refresh the owner's cell, keep the other cells of the last full run
+                    old = json.load(open(mj)).get("results", {})
+                    if "error" not in old:
+                        old.update(res)
+                        res = old
+                json.dump({"verif_commit": verif_commit, "tier": "native debug-assertion build of each quick workload", "results": res}, open(mj, "w"), indent=1)
                 fired = [p for p, r in res.items() if isinstance(r, dict) and r.get("fires")]
                 print("%s: %s (%.0fs)" % (name, ",".join(fired) if fired else ("ERROR " + str(res.get("error")) if "error" in res else "nothing fires"), time.time() - t0), flush=True)
         finally:
@@ -209,7 +216,7 @@ def main():
             sd = os.path.abspath(a[a.index("--dir") + 1])
         return run_tier(a[1], a[2], a[3], scale=a[4] if len(a) > 4 and not a[4].startswith("--") else None, seeded_dir=sd)
     if a[0] == "run":
-        workers, threads, base = 2, 8, 0
+        workers, threads, base, owner_only = 2, 8, 0, False
         names = []
         i = 1
         while i < len(a):
@@ -218,6 +225,8 @@ def main():
             elif a[i] == "--dir":
                 global SEEDED
                 SEEDED = os.path.abspath(a[i + 1]); i += 2
+            elif a[i] == "--owner-only":
+                owner_only = True; i += 1
             elif a[i] == "--base":
                 base = int(a[i + 1]); i += 2
             elif a[i] == "--threads":
@@ -226,7 +235,7 @@ def main():
                 names.append(a[i]); i += 1
         if not names:
             names = sorted(n for n in os.listdir(SEEDED) if os.path.isdir(os.path.join(SEEDED, n)))
-        run(names, workers, threads, base)
+        run(names, workers, threads, base, owner_only)
         return 0
     print(__doc__)
     return 2
